@@ -5,6 +5,7 @@ package bkbn254
 import (
 	"bytes"
 	"fmt"
+	"hash"
 	"math/big"
 	"sync"
 
@@ -180,32 +181,85 @@ func cloneProof(p *groth16.Proof) *groth16.Proof {
 }
 
 // nonSubgroupG1 returns a curve point outside the prime-order subgroup (nil if cofactor 1).
+// The curve coefficient is recovered from the generator (b = y^2 - x^3); x walks
+// deterministically until x^3 + b is a square and the point is not in G1.
 func nonSubgroupG1() *curve.G1Affine {
 	_, _, g1, _ := curve.Generators()
-	u := g1.X
-	for i := 0; i < 64; i++ {
-		p := curve.MapToCurve1(&u)
+	b := g1.Y
+	b.Square(&b)
+	x3 := g1.X
+	x3.Square(&x3).Mul(&x3, &g1.X)
+	b.Sub(&b, &x3)
+	x := g1.X
+	for i := 0; i < 400; i++ {
+		x.Add(&x, &g1.Y)
+		rhs := x
+		rhs.Square(&rhs).Mul(&rhs, &x).Add(&rhs, &b)
+		if rhs.Legendre() != 1 {
+			continue
+		}
+		y := rhs
+		y.Sqrt(&rhs)
+		p := curve.G1Affine{X: x, Y: y}
 		if p.IsOnCurve() && !p.IsInSubGroup() {
 			return &p
 		}
-		u.Double(&u)
-		u.Add(&u, &g1.Y)
 	}
 	return nil
 }
 
 func nonSubgroupG2() *curve.G2Affine {
 	_, _, _, g2 := curve.Generators()
-	u := g2.X
-	for i := 0; i < 64; i++ {
-		p := curve.MapToCurve2(&u)
+	b := g2.Y
+	b.Square(&b)
+	x3 := g2.X
+	x3.Square(&x3).Mul(&x3, &g2.X)
+	b.Sub(&b, &x3)
+	x := g2.X
+	for i := 0; i < 400; i++ {
+		x.Add(&x, &g2.Y)
+		rhs := x
+		rhs.Square(&rhs).Mul(&rhs, &x).Add(&rhs, &b)
+		if rhs.Legendre() != 1 {
+			continue
+		}
+		y := rhs
+		y.Sqrt(&rhs)
+		p := curve.G2Affine{X: x, Y: y}
 		if p.IsOnCurve() && !p.IsInSubGroup() {
 			return &p
 		}
-		u.Double(&u)
-		u.Add(&u, &g2.Y)
 	}
 	return nil
+}
+
+// torsionG1 returns a non-zero point of the cofactor subgroup ([r]N for a point N outside G1):
+// adding it to a proof element leaves every pairing unchanged, so only an explicit subgroup
+// check rejects the edited proof (nil when the cofactor is 1).
+func torsionG1() *curve.G1Affine {
+	n := nonSubgroupG1()
+	if n == nil {
+		return nil
+	}
+	var t curve.G1Affine
+	t.ScalarMultiplication(n, fr.Modulus())
+	if t.IsInfinity() {
+		return nil
+	}
+	return &t
+}
+
+func torsionG2() *curve.G2Affine {
+	n := nonSubgroupG2()
+	if n == nil {
+		return nil
+	}
+	var t curve.G2Affine
+	t.ScalarMultiplication(n, fr.Modulus())
+	if t.IsInfinity() {
+		return nil
+	}
+	return &t
 }
 
 type namedG1 struct {
@@ -222,6 +276,11 @@ func g1Alphabet(v curve.G1Affine, others []namedG1) []namedG1 {
 	out := []namedG1{{"inf", inf}, {"gen", g1}, {"neg", neg}, {"double", dbl}, {"plusG", plus}}
 	if ns := nonSubgroupG1(); ns != nil {
 		out = append(out, namedG1{"nonsubgroup", *ns})
+	}
+	if t := torsionG1(); t != nil {
+		var pt curve.G1Affine
+		pt.Add(&v, t)
+		out = append(out, namedG1{"plusTorsion", pt})
 	}
 	out = append(out, others...)
 	var res []namedG1
@@ -364,6 +423,14 @@ func g16Edits(g *g16Case, thorough bool) []g16Edit {
 				n string
 				p curve.G2Affine
 			}{"nonsubgroup", *ns})
+		}
+		if t := torsionG2(); t != nil {
+			var pt curve.G2Affine
+			pt.Add(&a.Bs, t)
+			alts = append(alts, struct {
+				n string
+				p curve.G2Affine
+			}{"plusTorsion", pt})
 		}
 		for _, e := range alts {
 			if e.p == a.Bs {
@@ -590,6 +657,65 @@ func badAssignments(c *vh.Check, g *g16Case) {
 	}
 }
 
+type g16RecHash struct {
+	hash.Hash
+	log *bytes.Buffer
+}
+
+func (r *g16RecHash) Write(p []byte) (int, error) {
+	r.log.WriteByte('W')
+	r.log.Write(p)
+	return r.Hash.Write(p)
+}
+func (r *g16RecHash) Sum(b []byte) []byte { r.log.WriteByte('S'); return r.Hash.Sum(b) }
+func (r *g16RecHash) Reset()              { r.log.WriteByte('R'); r.Hash.Reset() }
+
+// g16HashCoverage: the commitment challenge (hash-to-field) must absorb every commitment and
+// every public input the key says is committed — observed through the documented option
+// backend.WithVerifierHashToFieldFunction.
+func g16HashCoverage(c *vh.Check, g *g16Case) {
+	if len(g.vk.PublicAndCommitmentCommitted) == 0 {
+		return
+	}
+	stream := func(p *groth16.Proof, pub fr.Vector) string {
+		r := &g16RecHash{Hash: hash_to_field.New([]byte(constraint.CommitmentDst)), log: new(bytes.Buffer)}
+		vh.Recover(func() {
+			_ = groth16.Verify(p, g.vk, append(fr.Vector(nil), pub...), backend.WithVerifierHashToFieldFunction(r))
+		})
+		return r.log.String()
+	}
+	a, x := g.proof[0], g.pub[0]
+	base := stream(a, x)
+	if len(base) == 0 {
+		c.Fatal("groth16 verifier did not use the hash-to-field option (%s/%s)", CurveID, g.Name)
+	}
+	one := fr.One()
+	for i, committed := range g.vk.PublicAndCommitmentCommitted {
+		for _, j := range committed {
+			if j-1 < 0 || j-1 >= len(x) {
+				continue // a previous commitment's value, derived inside Verify
+			}
+			x2 := append(fr.Vector(nil), x...)
+			x2[j-1].Add(&x2[j-1], &one)
+			c.Evals.Add(1)
+			if stream(a, x2) == base {
+				c.Violation(fmt.Sprintf("g16:%s:%s:commitment-hash-does-not-bind:public[%d]", CurveID, g.Name, j-1), map[string]any{"curve": CurveID.String(), "circuit": g.Name, "commitment": i, "public_input": j - 1})
+			} else {
+				c.Outcome("g16:hash-binds:committed-public-input")
+			}
+		}
+		p := cloneProof(a)
+		_, _, g1, _ := curve.Generators()
+		p.Commitments[i].Add(&p.Commitments[i], &g1)
+		c.Evals.Add(1)
+		if stream(p, x) == base {
+			c.Violation(fmt.Sprintf("g16:%s:%s:commitment-hash-does-not-bind:Commitments[%d]", CurveID, g.Name, i), map[string]any{"curve": CurveID.String(), "circuit": g.Name, "commitment": i})
+		} else {
+			c.Outcome("g16:hash-binds:commitment")
+		}
+	}
+}
+
 // RunC01 runs the Groth16 verifier check on this curve.
 func RunC01(c *vh.Check, cases []bk.Case) {
 	c.Par(len(cases), func(i int) {
@@ -608,6 +734,7 @@ func RunC01(c *vh.Check, cases []bk.Case) {
 		}
 		c.Count("edits:"+CurveID.String(), g.Name, int64(len(edits)))
 		badAssignments(c, g)
+		g16HashCoverage(c, g)
 		if i == 0 {
 			c.Sample(map[string]any{"curve": CurveID.String(), "circuit": g.Name, "edits": len(edits), "first_edits": []string{edits[1].name, edits[3].name, edits[len(edits)-2].name}})
 		}
